@@ -367,3 +367,78 @@ pub fn corr(ctx: &mut Ctx) {
         }
     }
 }
+
+/// C08: the finished sketch is a consistent SELECTION of the hash set (implementation-only oracles, all four
+/// sketcher types, emphasis on the sparse regime where densification fills most bins):
+///   (M) every position shows the hash of an item of the set;
+///   (R) S ⊆ U and U's position k shows a hash of S  ⇒  S's position k shows the same hash;
+///   (C) sketch(A)[k] == sketch(B)[k]  ⇔  sketch(A ∪ B)[k] ∈ hashes(A) ∩ hashes(B)   — the event whose
+///       probability is J under exchangeable hashing (Props/C08 collision_iff / collision_count_is_jaccard);
+///   views: equal u64 ⇔ equal float bits (no r-tie) and equal u64 ⇒ equal u32.
+pub fn selection_oracles(ctx: &mut Ctx) {
+    use std::collections::HashSet;
+    let ms: Vec<usize> = if ctx.quick() { vec![1, 2, 3, 8, 64, 500] } else { vec![1, 2, 3, 8, 64, 500, 4096, 20000] };
+    let ncases = ctx.n(160, 3000);
+    for c in 0..ncases {
+        let mut rng = ctx.rng.fork();
+        let kind = c as usize % 4;
+        let m = ms[(c as usize / 4) % ms.len()];
+        // set sizes from 1 to ~3m; three of five cases sparse (n << m)
+        let nu = match c % 5 { 0 => 2, 1 => 2 + m / 50, 2 => 2 + m / 10, 3 => 2 + m, _ => 2 + rng.below(3 * m as u64 + 1) as usize };
+        let u_items = gen_stream(&mut rng, nu);
+        // A = first part, B = last part, overlapping in the middle
+        let i1 = 1 + rng.below(nu as u64 - 1) as usize; // A = [0, i1)
+        let i0 = rng.below(i1 as u64 + 1) as usize; // B = [i0, nu)  (i0 <= i1: overlap [i0,i1))
+        let a_items = &u_items[..i1];
+        let b_items = if i0 < nu { &u_items[i0..] } else { &u_items[nu - 1..] };
+        let hset = |v: &[u64]| v.iter().map(|x| hash_with::<FnvHasher, u64>(x)).collect::<HashSet<u64>>();
+        let (ha, hb) = (hset(a_items), hset(b_items));
+        let mut union: Vec<u64> = a_items.to_vec();
+        for x in b_items { if !a_items.contains(x) { union.push(*x); } }
+        let hu = hset(&union);
+        let mk = |v: &[u64], rng: &mut Sm64| { let mut d = D::new(kind, m); let mut w = v.to_vec(); rng.shuffle(&mut w); let ok = d.sketch_slice(&w); (d, ok) };
+        let (da, oka) = mk(a_items, &mut rng);
+        let (db, okb) = mk(b_items, &mut rng);
+        let (du, oku) = mk(&union, &mut rng);
+        let alg = da.alg();
+        let sfx = da.sfx();
+        ctx.begin_case(&format!("dens selection {}{} m={} |A|={} |B|={} |AuB|={}", alg, sfx, m, a_items.len(), b_items.len(), union.len()));
+        ctx.count(&format!("sel alg={}{}", alg, sfx));
+        ctx.count(&format!("sel fill={}", if union.len() * 10 <= m { "sparse(<=m/10)" } else if union.len() >= m { "dense(>=m)" } else { "partial" }));
+        ctx.mark_nontrivial();
+        if !(oka && okb && oku) {
+            ctx.oracle_failure(serde_json::json!({"kind":"impl_violates_property","what":"sketch_slice of a non-empty set failed","alg":alg,"sfx":sfx,"m":m}));
+            continue;
+        }
+        let (va, vb, vu) = (da.u64view(), db.u64view(), du.u64view());
+        let (fa, fb) = (da.parts().3, db.parts().3);
+        let (wa, wb) = (da.u32view(), db.u32view());
+        let desc = serde_json::json!({"alg":alg,"sfx":sfx,"m":m,"A":a_items.iter().take(30).collect::<Vec<_>>(),"B":b_items.iter().take(30).collect::<Vec<_>>(),"nA":a_items.len(),"nB":b_items.len()});
+        let mut ncoll = 0usize;
+        for k in 0..m {
+            if !ha.contains(&va[k]) || !hb.contains(&vb[k]) || !hu.contains(&vu[k]) {
+                ctx.oracle_failure(serde_json::json!({"kind":"impl_violates_property","what":"(M) a finished position shows a hash that is not in the set","k":k,"case":desc}));
+                break;
+            }
+            if (ha.contains(&vu[k]) && va[k] != vu[k]) || (hb.contains(&vu[k]) && vb[k] != vu[k]) {
+                ctx.oracle_failure(serde_json::json!({"kind":"impl_violates_property","what":"(R) the union's position shows a hash of the subset but the subset's sketch shows another one: selection is not restriction-consistent","k":k,"union":vu[k],"a":va[k],"b":vb[k],"case":desc}));
+                break;
+            }
+            let coll = va[k] == vb[k];
+            if coll { ncoll += 1; }
+            if coll != (ha.contains(&vu[k]) && hb.contains(&vu[k])) {
+                ctx.oracle_failure(serde_json::json!({"kind":"impl_violates_property","what":"(C) collision at a position is not the event 'the hash selected for the union is common to both sets'","k":k,"union":vu[k],"a":va[k],"b":vb[k],"case":desc}));
+                break;
+            }
+            if coll != (fa[k] == fb[k]) && sfx == "64" {
+                ctx.oracle_failure(serde_json::json!({"kind":"impl_violates_property","what":"float view and u64 view disagree on a collision (f64)","k":k,"case":desc}));
+                break;
+            }
+            if coll && (fa[k] != fb[k] || wa[k] != wb[k]) {
+                ctx.oracle_failure(serde_json::json!({"kind":"impl_violates_property","what":"equal u64 position but different float / u32 view","k":k,"case":desc}));
+                break;
+            }
+        }
+        ctx.count(if ncoll == 0 { "sel collisions=0" } else if ncoll == m { "sel collisions=m" } else { "sel collisions=some" });
+    }
+}
